@@ -722,32 +722,54 @@ inductive Carrier where
   | float64 (n : Num)
   | jsonNumber (n : Num)
 
-/-- `toIntCeil` AS CODED: `if f, ok := x.(float64); ok { x = math.Ceil(f) }; return toInt(x)` — the
-    ceiling is applied to a float64 only; a json.Number goes through `toInt(parseNumber(x))`, which
-    truncates. -/
-def toIntCeilCoded : Carrier → Int
-  | .float64 n => floatToInt (fceil n)
-  | .jsonNumber n => floatToInt n
+/-- `toIntCeil` AS CODED (since f1140b8):
+    `if n, ok := x.(json.Number); ok { x = parseNumber(n) }; if f, ok := x.(float64); ok { x = math.Ceil(f) };
+    return toInt(x)` — a json.Number is normalised FIRST, so the float64 test sees the same value
+    in both carriers (`fceil` is the identity on an integer carrier). -/
+def toIntCeilCoded : Carrier → Option Int
+  | .float64 n => toInt? (.num (fceil n))
+  | .jsonNumber n => toInt? (.num (fceil n))   -- parseNumber(n) denotes the same `Num`
 
 /-- FULL STATEMENT (property C03, last sentence, for the end of a slice): the carrier does not matter. -/
 def carrier_independent_statement : Prop :=
   ∀ n : Num, toIntCeilCoded (.float64 n) = toIntCeilCoded (.jsonNumber n)
 
-/-- The full statement is FALSE of the current code: the slice end 1.5 is 2 when carried as
-    float64 (`[1,2,3] | .[:1.5]` is `[1,2]`) and 1 when carried as json.Number
-    (`echo 1.5 | gojq '. as $e | [1,2,3] | .[:$e]'` is `[1]`). Finding
-    `carrier-swap:slice-end-json.Number`. -/
-theorem carrier_independent_counterexample : ¬ carrier_independent_statement := by
-  intro h
-  have := h (.flt (3 / 2))
-  revert this
-  decide +kernel
+/-- The end of a slice is rounded up in every carrier (the former dependence — a json.Number end
+    was truncated, finding `carrier-swap:slice-end-json.Number` — is repaired), and the coded
+    conversion is the model's `toIntCeil?`. -/
+theorem carrier_independent : carrier_independent_statement ∧
+    ∀ n : Num, toIntCeilCoded (.jsonNumber n) = toIntCeil? (.num n) := by
+  refine ⟨fun _ => rfl, ?_⟩
+  intro n
+  cases n with
+  | flt q =>
+    show toInt? (.num (fceil (.flt q))) = some (floatToInt (fceil (.flt q)))
+    simp only [fceil]
+    split <;> rfl
+  | _ => rfl
 
-/-- what does hold: the two carriers agree on every value that is its own ceiling (all integral
-    floats, ±Inf, NaN, −0), i.e. the dependence is confined to fractional slice ends. -/
-theorem carrier_independent_partial (n : Num) (h : fceil n = n) :
-    toIntCeilCoded (.float64 n) = toIntCeilCoded (.jsonNumber n) := by
-  simp [toIntCeilCoded, h]
+/-- `ldexp`/`scalb`/`scalbln` (since f16ffcd the count is clamped to ±4096 before `math.Ldexp`):
+    an infinite or huge count is well defined — it saturates: `x·2^(+∞)` is ±Inf and `x·2^(−∞)`
+    is ±0 for every finite non-zero `x`, zeros and infinities are unchanged — and only a NaN
+    count is left open (Go's `int(NaN)` is platform-defined). The former wrap-around of
+    `math.Ldexp` next to MinInt64 (finding `law:ldexp-exact`) cannot be reached any more. -/
+theorem ldexp_extreme_counts (q : Rat) (hq : (q == 0) = false) (z : Int) (hz : 4096 < z) :
+    ldexpCount? (.inf false) = some 4096 ∧ ldexpCount? (.inf true) = some (-4096) ∧
+    ldexpCount? (.int z) = some 4096 ∧ ldexpCount? (.int (-z)) = some (-4096) ∧ ldexpCount? .nan = none ∧
+    fldexp (.flt q) 4096 = .inf (q < 0) ∧ fldexp (.flt q) (-4096) = signedZero (q < 0) ∧
+    mathFn2 "ldexp" (.flt q) (.inf true) = some (signedZero (q < 0)) ∧
+    mathFn2 "scalb" (.flt q) (.int (-9223372036854775807)) = some (signedZero (q < 0)) := by
+  have h1 : ldexpCount? (.int z) = some 4096 := by
+    simp only [ldexpCount?]; rw [if_neg (by omega), if_pos hz]
+  have h2 : ldexpCount? (.int (-z)) = some (-4096) := by
+    simp only [ldexpCount?]; rw [if_pos (by omega)]
+  have h3 : fldexp (.flt q) 4096 = .inf (q < 0) := by simp [fldexp, hq]
+  have h4 : fldexp (.flt q) (-4096) = signedZero (q < 0) := by simp [fldexp, hq]
+  refine ⟨rfl, rfl, h1, h2, rfl, h3, h4, ?_, ?_⟩
+  · show (ldexpCount? (.inf true)).map (fldexp (.flt q)) = _
+    simp [ldexpCount?, h4]
+  · show (ldexpCount? (.int (-9223372036854775807))).map (fldexp (.flt q)) = _
+    simp [ldexpCount?, h4]
 
 /-! ## 8. gmtime / mktime -/
 
@@ -767,30 +789,63 @@ theorem gmtime_whole_seconds (t : Int) (h : -two53 ≤ t ∧ t ≤ two53) :
       omega
     · have := Rat.intCast_lt_intCast.mp hc
       omega
-  simp only [epochToArray?, Num.toRat?, Option.getD_some, hr, if_false, fracNanos_int, truncRat_int]
+  simp only [epochToArray?, epochParts?, Num.toRat?, Option.getD_some, hr, if_false, fracNanos_int, Rat.floor_intCast]
   simp
 
-/-- do `gmtime(q)` and `gmtime(floor q)` agree on year, month, day, hour, minute (and both exist)? -/
-def gmtimeAgrees (q : Rat) : Bool :=
-  match epochToArray? (.flt q), epochToArray? (ffloor (.flt q)) with
-  | some (.arr a), some (.arr b) => a.take 5 == b.take 5
-  | none, none => true
-  | _, _ => false
+/-- the instant `gmtime` decomposes, for an epoch `q` with a fraction: whole seconds `sec` and
+    `0 ≤ ns < 10^9` nanoseconds that denote `q` to within two nanoseconds -/
+def GmtimeAccurate (q : Rat) : Prop :=
+  ∃ sec ns : Int, epochParts? (.flt q) = some (sec, ns) ∧ 0 ≤ ns ∧ ns < 1000000000 ∧
+    ((sec : Rat) + (ns : Rat) / 1000000000) - q < 2 / 1000000000 ∧
+    q - ((sec : Rat) + (ns : Rat) / 1000000000) < 2 / 1000000000
 
-/-- FULL STATEMENT for fractional epochs: the broken-down time of `q` lies in the second that
-    starts at `floor q`. -/
-def gmtime_statement : Prop := ∀ q : Rat, gmtimeAgrees q = true
+/-- FULL STATEMENT: every epoch within ±2^53 s — negative and fractional included — is decomposed
+    accurately. (The earlier form "same whole second as floor q" is too strong even for correct
+    code: the fraction of −2^−70 s rounds up to a whole second, and 1970-01-01T00:00:00 is the
+    nearest answer there is.) -/
+def gmtime_statement : Prop :=
+  ∀ q : Rat, -(two53 : Rat) ≤ q ∧ q ≤ (two53 : Rat) → GmtimeAccurate q
 
-/-- The full statement is FALSE of the current code for NEGATIVE fractional epochs: `epochToArray`
-    takes the seconds by `int64(v)` (truncation towards zero) but the nanoseconds from
-    `v - math.Floor(v)`, so −0.5 s becomes 1970-01-01T00:00:00.5 instead of 1969-12-31T23:59:59.5
-    (`gojq -n '-0.5 | gmtime'`; `-1.5 | gmtime | mktime` is −0.5). Finding
-    `law:gmtime-mktime-roundtrip`. Whole seconds (gmtime_whole_seconds) and positive fractions are
-    not affected. -/
-theorem gmtime_negative_fraction_counterexample : ¬ gmtime_statement := by
-  intro h
-  have := h (-1 / 2)
-  revert this
+/-- the two float64 roundings of `int64((v - s) * 1e9)` land within two nanoseconds of the exact
+    fraction `q − floor q` (decidable for each `q`) -/
+def FracAccurate (q : Rat) : Prop :=
+  0 ≤ fracNanos (.flt q) ∧
+  (fracNanos (.flt q) : Rat) / 1000000000 - (q - (q.floor : Rat)) < 2 / 1000000000 ∧
+  (q - (q.floor : Rat)) - (fracNanos (.flt q) : Rat) / 1000000000 < 2 / 1000000000
+
+instance (q : Rat) : Decidable (FracAccurate q) := by unfold FracAccurate; infer_instance
+
+/-- PROVED PART of `gmtime_statement`: the seconds are counted from `floor q` (since c446035 — the
+    former truncation towards zero made −0.5 s the year 1970, finding
+    `law:gmtime-mktime-roundtrip`), `time.Unix`'s normalisation keeps the nanoseconds in range,
+    and the instant denoted is `floor q + fracNanos/10^9` exactly; hence it is accurate whenever
+    the float computation of the fraction is. GAP: `FracAccurate q` for ALL `q` is an error bound
+    on two correctly rounded float64 operations (`roundRat`), for which the library has no lemma;
+    it is decided below at the boundary cases and observed by the native stream and the law
+    `gmtime-mktime-roundtrip` of every run. -/
+theorem gmtime_partial (q : Rat) (hr : -(two53 : Rat) ≤ q ∧ q ≤ (two53 : Rat)) (hf : FracAccurate q) :
+    GmtimeAccurate q := by
+  obtain ⟨_, h1, h2⟩ := hf
+  have hr' : ¬ (q < -(two53 : Rat) ∨ (two53 : Rat) < q) := by
+    intro h; rcases h with h | h <;> grind
+  refine ⟨q.floor + fracNanos (.flt q) / 1000000000, fracNanos (.flt q) % 1000000000, ?_, ?_, ?_, ?_, ?_⟩
+  · simp [epochParts?, Num.toRat?, hr']
+  · exact Int.emod_nonneg _ (by decide)
+  · exact Int.emod_lt_of_pos _ (by decide)
+  · have := split_nanos (fracNanos (.flt q))
+    simp only [Rat.intCast_add]
+    grind
+  · have := split_nanos (fracNanos (.flt q))
+    simp only [Rat.intCast_add]
+    grind
+
+/-- the former failing inputs and the rounding corner, decided: −0.5 s and −1.5 s lie in the
+    seconds −1 and −2 with half a second of nanoseconds; −2^−70 s is second 0 exactly. -/
+theorem gmtime_negative_fractions :
+    epochParts? (.flt (-1 / 2)) = some (-1, 500000000) ∧ epochParts? (.flt (-3 / 2)) = some (-2, 500000000) ∧
+    epochParts? (.flt (-(1 : Rat) / 2 ^ 70)) = some (0, 0) ∧
+    FracAccurate (-1 / 2) ∧ FracAccurate (-3 / 2) ∧ FracAccurate (-(1 : Rat) / 2 ^ 70) ∧
+    FracAccurate (1425599507678 / 1000) := by
   decide +kernel
 
 /-! ## Non-vacuity: the hypotheses above are satisfiable, at the boundaries the property names
@@ -843,8 +898,9 @@ example : funcDelpaths (.arr [jvInt 0, jvInt 1, jvInt 2, jvInt 3]) (.arr [.arr [
     = .ok (.arr [jvInt 0, jvInt 3]) := by rfl
 example : funcSetpath .null (.arr [.str [97], jvInt 2]) (jvInt 7) =
     .ok (.obj [([97], .arr [.null, .null, jvInt 7])]) := by rfl
-example : fceil (.flt 2) = .flt 2 := by decide +kernel
+example : ((1 / 2 : Rat) == 0) = false ∧ (4096 : Int) < 9223372036854775807 := by decide +kernel
 example : -two53 ≤ (1425599507 : Int) ∧ (1425599507 : Int) ≤ two53 := by decide
+example : -(two53 : Rat) ≤ (-1 / 2 : Rat) ∧ (-1 / 2 : Rat) ≤ (two53 : Rat) := by decide +kernel
 /-- "-.5e-3" is a number, "1.2.3", "0x10", "1e" are not -/
 example : (scanNumLit [45, 46, 53, 101, 45, 51]).isSome = true ∧ (scanNumLit [49, 46, 50, 46, 51]).isSome = false ∧
     (scanNumLit [48, 120, 49, 48]).isSome = false ∧ (scanNumLit [49, 101]).isSome = false := by decide +kernel
